@@ -1,7 +1,8 @@
 (* C14: the profile (Pyroscope) planners of reader/prof/transpiler as planner objects and their Process methods,
    over the SQL object tree of Sql.v: transpiler.go (PlanLabelNames, PlanLabelValues, PlanMergeTraces,
    PlanSelectSeries, PlanMergeProfiles, PlanSeries, PlanAnalyzeQuery, populateTypeId, streamSelectorPlanners) and one
-   constructor per planner struct (planner_*.go). The selector planner itself is C17's ProfSel.prof_selector.
+   constructor per planner struct (planner_*.go). The selector planner itself is C17's ProfSel.prof_selector_abs (Process since
+   the absent-label fix: selectors on stored labels that accept "" become exclusions; ProfSel.prof_selector is its processIndexed).
    No Process method of these planners stores into a field (regenerated obligation translation_field_writes: no
    target in prof/transpiler), so Process is a function of the planner object and the context: `pprocess`.
    Executable definitions only. *)
@@ -17,12 +18,15 @@ Record prctx := {
   pt_series_gin_dist : string;   (* ProfilesSeriesGinDistTable *)
   pt_series : string;            (* ProfilesSeriesTable *)
   pt_series_dist : string;       (* ProfilesSeriesDistTable *)
-  pt_profiles_dist : string      (* ProfilesDistTable *)
+  pt_profiles_dist : string;     (* ProfilesDistTable *)
+  (* not a field of the context: the answers of StreamSelectorPlanner's acceptsAbsent for the regular expressions of the
+     request, as a table (pattern, "", the anchored pattern matches "") -- the oracle of ProfSel.prof_selector_abs *)
+  pr_empty : list (string * string * bool)
 }.
 Definition pr_with_window (c : prctx) (w : Z * Z) : prctx :=
   {| pr_from_ns := fst w; pr_to_ns := snd w; pr_limit := pr_limit c; pt_series_gin := pt_series_gin c;
      pt_series_gin_dist := pt_series_gin_dist c; pt_series := pt_series c; pt_series_dist := pt_series_dist c;
-     pt_profiles_dist := pt_profiles_dist c |}.
+     pt_profiles_dist := pt_profiles_dist c; pr_empty := pr_empty c |}.
 
 (* date >= FormatFromDate(ctx.From) ; date <= ctx.To.UTC().Format("2006-01-02") *)
 Definition date_window (c : prctx) : list expr :=
@@ -95,7 +99,7 @@ Definition generic_labels (c : prctx) (return_col : string) (fp : option presult
 
 Fixpoint pprocess (p : pplanner) (c : prctx) {struct p} : res presult :=
   match p with
-  | PPSelector sels => Some (mk (prof_selector (pt_series_gin c) (pr_from_ns c) (pr_to_ns c) sels) [])
+  | PPSelector sels => Some (mk (prof_selector_abs (tbl_lookup (pr_empty c)) (pt_series_gin c) (pr_from_ns c) (pr_to_ns c) sels) [])
   | PPUnionAll mains =>
     (* the members are plain selects in every plan transpiler.go builds; a union inside a union is not modelled *)
     match (fix all (l : list pplanner) : res (list select) :=
